@@ -50,6 +50,11 @@ func serverSeeds(f *testing.F) {
 		"PUT / HTTP/1.1\r\nHost: h\r\nExpect: 100-continue\r\nContent-Length: 3\r\n\r\nabc",
 		"HEAD / HTTP/1.0\r\nConnection: keep-alive\r\n\r\n",
 		"GET / HTTP/1.1\r\nHost: h\r\nX: a\r\n b\r\n\r\n",
+		// hostile constants: chunk sizes on the integer boundaries (16 hex digits reach the sign bit)
+		"POST / HTTP/1.1\r\nHost: h\r\nTransfer-Encoding: chunked\r\n\r\n7fffffffffffffff\r\nhello\r\n0\r\n\r\n",
+		"POST / HTTP/1.1\r\nHost: h\r\nTransfer-Encoding: chunked\r\n\r\n1\r\na\r\nfffffffffffffff\r\nhello\r\n0\r\n\r\n",
+		"POST / HTTP/1.1\r\nHost: h\r\nContent-Length: 9223372036854775807\r\n\r\nhello",
+		"GET / HTTP/1.1\r\nHost: h\r\nCookie: a=\"b\"; c=d\r\n\r\n",
 		"POST / HTTP/1.1\r\nHost: h\r\nContent-Type: multipart/form-data; boundary=b\r\nContent-Length: 59\r\n\r\n--b\r\nContent-Disposition: form-data; name=\"a\"\r\n\r\nv\r\n--b--\r\n",
 	} {
 		f.Add([]byte(s), false, uint16(0))
